@@ -14,19 +14,8 @@ From Coq Require Import List Arith Bool ZArith Sorted Permutation Lia.
 From Parmcb Require Import GraphModel GraphSpec SpannerModel SpannerProofs.
 Import ListNotations.
 
-(* recover_scan of tools/props/c15.py:
-     while i < len(ret) or j < len(drop):
-       if j >= len(drop) or (i < len(ret) and w[ret[i]] <= w[drop[j]]): take ret[i]  else: take drop[j] *)
-Fixpoint merge_scan (w : list Z) (r : list nat) : list nat -> list nat :=
-  match r with
-  | [] => fun d => d
-  | a :: r' =>
-      fix aux (d : list nat) : list nat :=
-        match d with
-        | [] => a :: r'
-        | b :: d' => if Z.leb (wt w a) (wt w b) then a :: merge_scan w r' d else b :: aux d'
-        end
-  end.
+(* merge_scan (the scan order recovered from an observed (retained, dropped) pair) is defined in SpannerModel.v,
+   where it is extracted and run by the model driver itself (kind M of component c15). *)
 
 Lemma merge_scan_nil_l w d : merge_scan w [] d = d.
 Proof. reflexivity. Qed.
